@@ -20,7 +20,11 @@ class C02(C01):
     pid = "C02"
     coq_targets = ["Properties/C02.vo", "Model/CheckC01.vo"]
     theorems = ["C02_bounds_of_kept_grouping", "C02_rows_ok_means", "C02_checker_predicate_holds_on_model",
-                "C02_domain_guard"]
+                "C02_domain_guard",
+                "C02_rank_order_is_sort_independent", "C02_rank_order_is_sort_independent_with_nan",
+                "C02_rank_order_is_the_stable_sort", "C02_same_ranks_without_ties",
+                "C02_same_ranks_excludes_strict_inversion", "C02_tie_free_candidates_are_decided",
+                "C02_tied_rates_make_the_rank_test_sort_dependent"]
 
     def oracle(self, case, out):
         ok, msg = super().oracle(case, out)
